@@ -246,15 +246,104 @@ def glibc_count(s):
     return int(_glibc(b, 0, None))
 
 import re as _re
-_PRI = _re.compile(r'<PRI([diouxX])[A-Z0-9]*>')
+_PRI = _re.compile(r'<PRI([diouxX])([A-Z0-9]*)>')
 
 def glibc_applicable(s):
     """glibc counts `%1$m` as needing one argument (it takes the largest number it sees); the tool documents `%n$m` as
     tolerated and argument-free.  That class is excluded from the count comparison."""
     return _re.search(r'%[0-9]+\$[^%]*?m', s) is None
 
+def _pri_expansion(conv, size):
+    """what <inttypes.h> of glibc on an LP64 platform expands PRI<conv><size> to (8/16/32-bit types are promoted to int;
+    64-bit, FAST16/32/64, MAX and PTR are `long`)"""
+    long_ = size in ('64', 'LEAST64', 'FAST16', 'FAST32', 'FAST64', 'MAX', 'PTR')
+    return ('l' if long_ else '') + conv
+
 def expand_pri(s):
-    return _PRI.sub(lambda m: 'l' + m.group(1), s)
+    return _PRI.sub(lambda m: _pri_expansion(m.group(1), m.group(2)), s)
+
+# glibc <printf.h>
+PA_INT, PA_CHAR, PA_WCHAR, PA_STRING, PA_WSTRING, PA_POINTER, PA_FLOAT, PA_DOUBLE = range(8)
+PA_FLAG_LONG_LONG = PA_FLAG_LONG_DOUBLE = 1 << 8
+PA_FLAG_LONG, PA_FLAG_SHORT, PA_FLAG_PTR = 1 << 9, 1 << 10, 1 << 11
+_PA_NAMES = {PA_INT: 'PA_INT', PA_CHAR: 'PA_CHAR', PA_WCHAR: 'PA_WCHAR', PA_STRING: 'PA_STRING', PA_WSTRING: 'PA_WSTRING',
+             PA_POINTER: 'PA_POINTER', PA_FLOAT: 'PA_FLOAT', PA_DOUBLE: 'PA_DOUBLE'}
+
+def pa_name(code):
+    base = _PA_NAMES.get(code & 0xff, str(code & 0xff))
+    fl = [n for bit, n in ((PA_FLAG_LONG_LONG, 'PA_FLAG_LONG_LONG'), (PA_FLAG_LONG, 'PA_FLAG_LONG'), (PA_FLAG_SHORT, 'PA_FLAG_SHORT'),
+                           (PA_FLAG_PTR, 'PA_FLAG_PTR')) if code & bit]
+    return '|'.join([base] + fl)
+
+def glibc_types(s):
+    """the argument types glibc's parse_printf_format reports (list of PA_* codes), or None"""
+    k = glibc_count(s)
+    if k is None:
+        return None
+    import ctypes
+    arr = (ctypes.c_int * max(k, 1))()
+    n = int(_glibc(s.encode('utf-8'), k, arr))
+    return [int(arr[i]) for i in range(min(n, k))]
+
+_LP64 = None
+def lp64():
+    global _LP64
+    if _LP64 is None:
+        import ctypes
+        _LP64 = (ctypes.sizeof(ctypes.c_long) == 8 and ctypes.sizeof(ctypes.c_longlong) == 8 and ctypes.sizeof(ctypes.c_void_p) == 8
+                 and ctypes.sizeof(ctypes.c_size_t) == 8)
+    return _LP64
+
+def expected_pa(tp):
+    """the PA_* code glibc (LP64) reports for an argument of the C type the tool names — for the types where glibc's report and
+    C99 agree; None = not comparable.  Independent of the tool's tables: written from <printf.h> and the ABI."""
+    if tp.endswith(' *') and tp not in ('const char *', 'const wchar_t *', 'void *'):
+        # %n: glibc reports PA_INT|PA_FLAG_PTR whatever the length modifier
+        return (PA_INT | PA_FLAG_PTR) if expected_pa(tp[:-2]) is not None and (expected_pa(tp[:-2]) & 0xff) in (PA_INT, PA_CHAR) else None
+    table = {
+        'int': PA_INT, 'unsigned int': PA_INT,                                   # glibc does not report signedness
+        'signed char': PA_CHAR, 'unsigned char': PA_CHAR,                        # hh: reported like %c
+        'short int': PA_INT | PA_FLAG_SHORT, 'unsigned short int': PA_INT | PA_FLAG_SHORT,
+        'long int': PA_INT | PA_FLAG_LONG, 'unsigned long int': PA_INT | PA_FLAG_LONG,
+        # LP64: long long has the size of long and glibc reports it as PA_FLAG_LONG (LONG_MAX == LONG_LONG_MAX branch)
+        'long long int': PA_INT | PA_FLAG_LONG, 'unsigned long long int': PA_INT | PA_FLAG_LONG,
+        'intmax_t': PA_INT | PA_FLAG_LONG, 'uintmax_t': PA_INT | PA_FLAG_LONG, 'ssize_t': PA_INT | PA_FLAG_LONG, 'size_t': PA_INT | PA_FLAG_LONG,
+        'ptrdiff_t': PA_INT | PA_FLAG_LONG, '[unsigned ptrdiff_t]': PA_INT | PA_FLAG_LONG,
+        'double': PA_DOUBLE, 'long double': PA_DOUBLE | PA_FLAG_LONG_DOUBLE,
+        'char': PA_CHAR, 'wint_t': PA_WCHAR, 'const char *': PA_STRING, 'const wchar_t *': PA_WSTRING, 'void *': PA_POINTER,
+        'intptr_t': PA_INT | PA_FLAG_LONG, 'uintptr_t': PA_INT | PA_FLAG_LONG,
+    }
+    if tp in table:
+        return table[tp]
+    m = _re.fullmatch(r'u?int(?:_(least|fast))?(8|16|32|64)_t', tp)
+    if m:
+        kind, bits = m.group(1), int(m.group(2))
+        long_ = bits == 64 or (kind == 'fast' and bits >= 16)
+        return PA_INT | (PA_FLAG_LONG if long_ else 0)
+    return None
+
+_DIRECTIVE = _re.compile(r"%(?:[0-9]+\$)?[#0 +'I-]*(?:\*(?:[0-9]+\$)?|[0-9]+)?(?:\.(?:\*(?:[0-9]+\$)?|[0-9]*))?(hh|ll|[hlqjzZtL])?([A-Za-z%])")
+
+def glibc_types_applicable(s):
+    """Where glibc's parse_printf_format and C99/the man page legitimately differ in the TYPE they give (observed with glibc on
+    LP64, and visible in stdio-common/printf-parsemb.c):
+    * `q` / `L` with an integer conversion: the man page says long long; glibc's parser sets is_long_double, whose integer branch
+      is compiled out when LONG_MAX == LONG_LONG_MAX, and reports plain PA_INT;
+    * `%lc`, `%ls`: C99 says wint_t / wchar_t*; the parser looks at the conversion letter only and reports PA_CHAR / PA_STRING
+      (`%C`, `%S` are reported wide);
+    * `%n`: always PA_INT|PA_FLAG_PTR, the length modifier is dropped (handled in expected_pa);
+    * signedness is never reported, `hh` is reported as PA_CHAR, `j z Z t ll` by their size (handled in expected_pa);
+    * the class `%n$m` (see glibc_applicable).
+    Strings with one of the first two are left out of the type comparison (the count is still compared)."""
+    if not glibc_applicable(s) or not lp64():
+        return False
+    for m in _DIRECTIVE.finditer(s):
+        ln, cv = m.group(1), m.group(2)
+        if ln in ('q', 'L') and cv in 'diouxXn':
+            return False
+        if ln == 'l' and cv in 'cs':
+            return False
+    return True
 
 # ------------------------------------------------------------------ the property on the real code
 
@@ -271,6 +360,7 @@ def nowarn_class():
     return _NoWarn.cls
 
 DIGIT_LIMIT_KEY = 'crash:ValueError:int-digit-limit:lib/strformat/c.py'
+STATS = {'glibc_types_compared': 0}
 
 def has_long_numeral(s):
     return _re.search(r'[0-9]{4301}', s) is not None
@@ -308,6 +398,15 @@ def check_property(s):
             if k is not None and k != len(got[1]):
                 rep.update(kind='glibc-count', observed=f'{len(got[1])} arguments', expected=f'glibc parse_printf_format: {k}', key='glibc:' + s[:80])
                 return rep
+            if k is not None and glibc_types_applicable(s):
+                pa = glibc_types(expand_pri(s))
+                want = [expected_pa(t[0]) for t in got[1]]
+                if pa is not None and None not in want and pa != want:
+                    i = next(j for j in range(len(want)) if j >= len(pa) or pa[j] != want[j])
+                    rep.update(kind='glibc-types', observed=f'argument {i + 1} reported as {got[1][i][0]!r} (glibc code expected: {pa_name(want[i])})',
+                               expected=f'glibc parse_printf_format: {pa_name(pa[i]) if i < len(pa) else "missing"}', key='glibc-types:' + s[:80])
+                    return rep
+                STATS['glibc_types_compared'] += 1
     # warnings never change acceptance or the argument list
     a = impl_parse(s)
     b = impl_parse(s, nowarn_class())
@@ -316,6 +415,34 @@ def check_property(s):
         rep.update(kind='warnings-not-inert', observed=a, expected=b, key='warnings:' + s[:80])
         return rep
     return None
+
+# ------------------------------------------------------------------ the kernel tie of the scanner to the live regex
+
+TIE_MODULE = 'I18n.Props.C11Tie'
+
+def prove_tie(chk):
+    """Props/C11Tie.lean: directive_regex (scanner = first match of the LIVE parse tree of _directive_re under the backtracking
+    semantics, group spans included), segmentation_is_finditer (the finditer loop of FormatString.__init__ = CFmt.scan),
+    generated_conversion_eq_model (Conversion.__init__ regenerated from source = CFmt.conversion).  The trees/definitions
+    are regenerated by chk.prove(..., generated=('cfmt',)) just before; a failure lands in chk.broken (then the falsifier
+    must find an input or the check reports `no-failing-input-found`)."""
+    tie = common.lean_check(TIE_MODULE, generated=(), extra_targets=(), leanchecker=chk.thorough)
+    tr = chk.lean.translation.get('cfmt', '')
+    tie_ok = tie.ok and not tr.startswith('untranslatable')
+    lean = chk.lean
+    lean.obligations += tie.obligations
+    lean.discharged += tie.discharged if tie_ok else 0
+    lean.theorems = list(lean.theorems) + list(tie.theorems)
+    lean.axioms.update(tie.axioms)
+    if not tie.ok:
+        lean.ok = False
+        lean.problems = list(lean.problems) + [TIE_MODULE + ': ' + p for p in tie.problems]
+        chk.broken.append({'kind': 'proof', 'module': TIE_MODULE, 'translation': tr, 'problems': tie.problems,
+                           'meaning': 'the scanner / finditer loop / Conversion.__init__ of the model are no longer proved equal to what was '
+                                      'regenerated from the current lib/strformat/c.py (parse tree of _directive_re, translated decision code)'})
+    chk.coverage['tie'] = {'module': TIE_MODULE, 'translator': 'tools/translate/cfmt2lean.py', 'translation': tr, 'checked': tie_ok,
+                           'theorems': tie.theorems, 'problems': tie.problems[:8]}
+    return tie_ok
 
 # ------------------------------------------------------------------ input families
 
@@ -342,7 +469,65 @@ def stream_inputs(chk, n_single, n_multi, n_bad):
                 s = G.mutate(rng, s)
             bad.append(s)
     fam['malformed'] = bad
+    fam['regex'] = regex_samples(rng, max(2000, n_bad // 2))
     return fam
+
+# ------------------------------------------------------------------ inputs drawn from the LIVE regex
+
+def regex_samples(rng, n):
+    """strings generated from the parse tree of the live `_directive_re` (random member of every class, random branch, repeats
+    0..3 times) and one-edit neighbours of them: whatever the current pattern accepts — including anything a changed pattern
+    accepts in addition — is represented, so a language extension shows up as an input the printf reference rejects.
+    Also `%` + every near miss obtained by dropping one element of a sampled directive."""
+    try:
+        import re._parser as sp, re._constants as sc
+        rx = M()._directive_re
+        tree = sp.parse(rx.pattern, rx.flags)
+    except Exception:
+        return []
+    def cls_member(av):
+        neg = any(op is sc.NEGATE for op, _ in av)
+        pool = []
+        for op, a in av:
+            if op is sc.LITERAL: pool.append(chr(a))
+            elif op is sc.RANGE: pool += [chr(a[0]), chr(a[1]), chr(rng.randint(a[0], a[1]))]
+            elif op is sc.CATEGORY:
+                pool += {sc.CATEGORY_DIGIT: ['0', '7', '٣'], sc.CATEGORY_WORD: ['a', '_', 'é'], sc.CATEGORY_SPACE: [' ', '\n']}.get(a, ['x'])
+        if neg:
+            cands = [c for c in 'a b%d$*.<>0\n' if c not in pool]
+            return rng.choice(cands) if cands else 'x'
+        return rng.choice(pool) if pool else ''
+    def gen(items):
+        out = []
+        for op, av in items:
+            if op is sc.LITERAL: out.append(chr(av))
+            elif op is sc.NOT_LITERAL: out.append(rng.choice([c for c in 'ab 1$' if ord(c) != av]))
+            elif op is sc.IN: out.append(cls_member(av))
+            elif op is sc.ANY: out.append(rng.choice('a%\n'))
+            elif op is sc.BRANCH: out.append(gen(rng.choice(av[1])))
+            elif op is sc.SUBPATTERN: out.append(gen(av[3]))
+            elif op in (sc.MAX_REPEAT, sc.MIN_REPEAT):
+                lo, hi, p = av
+                k = lo + (rng.randint(0, 3) if hi is sc.MAXREPEAT else rng.randint(0, max(0, min(hi, lo + 3) - lo)))
+                out.append(''.join(gen(p) for _ in range(k)))
+            elif op is sc.AT: pass
+            else: out.append('')
+        return ''.join(out)
+    res = []
+    for _ in range(n):
+        try:
+            parts = [gen(tree) for _ in range(rng.choice((1, 1, 1, 2, 3)))]
+        except Exception:
+            break
+        s = ''.join(parts)
+        res.append(s)
+        if s and rng.random() < 0.5:
+            i = rng.randrange(len(s))
+            res.append(s[:i] + s[i + 1:])                 # drop one character
+        if s and rng.random() < 0.25:
+            i = rng.randrange(len(s) + 1)
+            res.append(s[:i] + rng.choice("0$*.hlLI%<>1 ") + s[i:])
+    return res
 
 def corpus():
     d = os.path.join(common.VERIF, 'corpus', 'C11')
